@@ -21,6 +21,11 @@ def ref_curve(name, el, D, tau):
         with np.errstate(all="ignore"):
             ex = (np.log(tau) - np.log(0.000001)) / (np.log(tau) - np.log(2))
             return (D * tau) / (tau + 0.000001 * (el ** ex))
+    # user-supplied callables of the scenarios (harness/scen.py), written again here from their description
+    if name == "user_swapped":
+        return D * max(0.0, 1.0 - el / (3 * tau))
+    if name == "user_kwonly":
+        return D * 0.5 ** (el / tau)
     raise ValueError(name)
 
 
@@ -308,7 +313,7 @@ def c10_step(tr, st, c):
             fld, d0 = ("arb", "arb0") if a["kind"] == "arbitrary" else ("dmg", "dmg0")
             D = a[d0]
             evd = tr.sc["events"][i] if i < len(tr.sc["events"]) else None
-            if evd is not None and evd.get("curve") in ("linear", "convexe", "convexe noscale", "concave"):
+            if evd is not None and evd.get("curve") in ("linear", "convexe", "convexe noscale", "concave", "user_swapped", "user_kwonly"):
                 with np.errstate(all="ignore"):
                     D = ref_curve(evd["curve"], 0, a[d0], evd["recovery_tau"])     # concave with tau = 1 is 0 at once
                 D = np.where(np.isfinite(D), D, 0.0)
